@@ -67,5 +67,9 @@ def run(ctx):
                      "non-trivial = (watch) >= 1 Set and >= 1 Value result, (future) a waiter and a Fill or cancel, (lazy) >= 2 calls, (xmap) >= 3 ops")
     ctx.assumptions.append("Lazy = sync.OnceValue is modelled by its documented specification (f runs once; other callers block until it completes); the standard library's implementation is trusted")
     ctx.assumptions.append("sync.Map is modelled by its documented sequential behaviour; the real sync.Map is run side by side and compared with that model on every case")
-    vlib.handle_broken_proof(ctx)
+    def deep():
+        # only when an obligation (e.g. the source census) no longer checks: patience mode, bigger storms
+        for cls in CONC_SPECS:
+            vlib.patience_part(ctx, cls(), exe, proofs_ok, tag=cls().component, ncases=16, ms=6500)
+    vlib.handle_broken_proof(ctx, deep if ctx.tier == "quick" else None)
     ctx.finish(trusted_extra=["harness_watch (separate Go module: event log, gates, quiescence detection, channel identities) and props/watch_common.py (generators, Coq printing, history oracles)"])
